@@ -687,10 +687,72 @@ def _container_case(case):
     return None, detail, changed
 
 
+LOCK_VARIANTS = ["lock-hash-unlock-write-lock", "lock-hash-unlock-write", "view-lock-hash-write", "lock-hash-write"]
+
+
+def _lock_case(case):
+    """Programs over the `mutable` switch of a container: the hash read while locked must not outlive a later write."""
+    _, name, member, viewkind, variant, route = case
+    cont, members = _mk_container(name)
+    if not hasattr(type(cont), "mutable"):
+        return None, None, False
+    get = members[member]
+    f, ok, intercepted = ROUTES[route]
+    before = np.array(get(cont), copy=True)
+    held = None
+    if variant == "view-lock-hash-write":
+        arr = get(cont)
+        held = arr if viewkind is None else VIEW_FUNCS[viewkind](arr)
+    exc = None
+    try:
+        cont.mutable = False
+        _chash(cont)
+        if variant.startswith("lock-hash-unlock"):
+            cont.mutable = True
+        if held is None:
+            arr = get(cont)
+            held = arr if viewkind is None else VIEW_FUNCS[viewkind](arr)
+        if not ok(held):
+            return None, None, False
+        np.random.seed(1)
+        try:
+            f(held, 1)
+        except Exception as e:  # a locked array refuses the write: fine, the bytes then did not change
+            exc = type(e).__name__
+        if variant == "lock-hash-unlock-write-lock":
+            cont.mutable = False
+    except Exception as e:
+        return f"container {name}: the mutable switch raises {type(e).__name__}", {"exception": repr(e)[:200]}, False
+    after = np.array(get(cont), copy=True)
+    changed = before.tobytes() != after.tobytes()
+    got = _chash(cont)
+    if name == "Path2D":
+        from trimesh.path import Path2D
+        from trimesh.path.entities import Line
+
+        fresh = Path2D(entities=[Line([0, 1, 2, 3, 0])], vertices=after.copy(), process=False)
+    else:
+        fresh, _ = _mk_container(name, {("colors" if member == "colors" else member): after})
+    want = _chash(fresh)
+    detail = {"changed_bytes": changed, "exception": exc, "got": got, "want": want, "variant": variant}
+    if got != want:
+        if intercepted or not is_tracked(held):
+            via = "direct" if viewkind is None else ("tracked view" if is_tracked(held) else "untracked view")
+            if not is_tracked(held):
+                # the untracked-alias finding of the bare array: same key
+                return None, detail, changed
+            return f"container {name}.{member}: hash read while locked survives a later write ({variant}, {via})", detail, changed
+        return f"{route} (not intercepted) on tracked array -> stale hash", detail, changed
+    return None, detail, changed
+
+
 def _container_worker(cases):
     t = harness.Tally()
     for case in cases:
-        key, detail, nontrivial = _container_case(case)
+        if case[0] == "lock":
+            key, detail, nontrivial = _lock_case(case)
+        else:
+            key, detail, nontrivial = _container_case(case)
         if detail is None:
             continue
         t.evaluations += 1
@@ -713,6 +775,11 @@ def _container_cases(tier):
             for prehash, viewkind, midhash in itertools.product([False, True], CONT_VIEWS, [False, True]):
                 for r in routes:
                     out.append((name, member, prehash, viewkind, midhash, r))
+            # the `mutable` switch: lock / hash / (unlock) / write / (lock) / hash
+            for variant in LOCK_VARIANTS:
+                for viewkind in CONT_VIEWS:
+                    for r in routes:
+                        out.append(("lock", name, member, viewkind, variant, r))
     return out
 
 
@@ -754,7 +821,7 @@ def replay(case):
         return s.check(case["start"], case["history"])
     if "container_case" in case:
         c = case["container_case"]
-        key, detail, _ = _container_case(tuple(c))
+        key, detail, _ = _lock_case(tuple(c)) if c[0] == "lock" else _container_case(tuple(c))
         return [(key, detail)] if key else []
     t = _equal_hash_cases()
     return [(k, d) for k, c, d in t.violations]
